@@ -94,6 +94,10 @@ func TestVerifC03(t *testing.T) {
 	for k := 0; k < n; k++ {
 		cases = append(cases, cdesc{"synthetic", append(lows, highs...)[k%9], 0, k})
 	}
+	n = e.pick(300, 6000)
+	for k := 0; k < n; k++ {
+		cases = append(cases, cdesc{"hyphen-layout", highs[k%len(highs)], rr.Intn(len(docs)), k})
+	}
 
 	for idx, cd := range cases {
 		cd := cd
@@ -135,6 +139,44 @@ func TestVerifC03(t *testing.T) {
 					// notice lines and blank lines sprinkled in: exercises Copyright entries
 					in = []byte(vInsertNotices(r, b.text, 1+r.Intn(4)))
 				}
+				cs.setInput(in)
+				judge(c, in, added)
+			case "hyphen-layout":
+				// hyphen-ended lines followed by blank / whitespace-only / hyphen-only lines,
+				// with the license text running to the very end of the input (so that a
+				// match's EndLine and TotalInputLines sit at the last physical line)
+				c := vClassifier(t, thr)
+				d := docs[cd.doc]
+				for len(d.raw) > 20000 {
+					d = docs[r.Intn(len(docs))]
+				}
+				lines := strings.Split(strings.TrimRight(string(d.raw), "\n"), "\n")
+				var out []string
+				if r.Intn(2) == 0 {
+					out = append(out, strings.Split(strings.TrimRight(vOOVBlock(r, 1+r.Intn(2)), "\n"), "\n")...)
+				}
+				for _, l := range lines {
+					if strings.TrimSpace(l) != "" && r.Intn(5) == 0 {
+						out = append(out, strings.TrimRight(l, " \t\r")+"-")
+						switch r.Intn(5) {
+						case 0:
+							out = append(out, "")
+						case 1:
+							out = append(out, "   ")
+						case 2:
+							out = append(out, "", "")
+						case 3:
+							out = append(out, "\t", "-")
+						}
+						continue
+					}
+					out = append(out, l)
+				}
+				text := strings.Join(out, "\n")
+				if r.Intn(2) == 0 {
+					text += "\n"
+				}
+				in := []byte(text)
 				cs.setInput(in)
 				judge(c, in, added)
 			case "hostile":
